@@ -3,7 +3,10 @@
 package stack
 
 import (
+	"net/rpc"
+
 	"fmt"
+	"github.com/imoore76/ldlm/server/ipc"
 	"net"
 	"net/url"
 	"sort"
@@ -231,6 +234,23 @@ func c11Scenario(t *testing.T, res *common.Result, rng *common.Rng, cfg c11cfg, 
 			}(T)
 		}
 		time.Sleep(50 * time.Millisecond)
+	}
+
+	// admin connections opened before the signal keep sending list requests while the closers run: a
+	// request on an accepted IPC connection is "in flight at shutdown" like any other
+	for i := 0; i < 2; i++ {
+		if c, err := rpc.DialHTTP("unix", srv.sock); err == nil {
+			defer c.Close()
+			go func() {
+				for {
+					var ls ipc.ListLocksResponse
+					if c.Call("IPC.ListLocks", ipc.ListLocksRequest{}, &ls) != nil {
+						return
+					}
+				}
+			}()
+			res.Count("ipc-list-requests-in-flight")
+		}
 	}
 
 	// a slow REST client: a request of a session of its own whose headers have arrived and whose body is
